@@ -1,2 +1,4 @@
 import PanqecVerif.Model.Bits
 import PanqecVerif.Model.Code
+import PanqecVerif.Model.SweepLattices
+import PanqecVerif.Model.Sweep
